@@ -30,6 +30,8 @@ inductive Ev where
   | tick (at_ : Nat)
   | clientclosed (at_ : Nat)              -- `DispatcherClose()` has returned
   | connect (ep : Nat) (at_ : Nat)        -- a connection attempt (accepted or refused) reaches endpoint `ep`
+  | reach (ep : Nat) (up : Bool) (at_ : Nat) (maxWait : Nat)
+      -- endpoint `ep` starts refusing / accepting connections; `maxWait`: the configured maximum retry interval (µs)
   deriving Repr
 
 structure CallSt where
@@ -46,6 +48,9 @@ structure St where
   openedAt : Option Nat := none
   closed : List (Nat × Nat) := []          -- (conn, at)
   clientClosedAt : Option Nat := none
+  down : List (Nat × Nat) := []            -- (ep, since): endpoints refusing connections
+  upSince : List (Nat × Nat × Nat) := []   -- (ep, since, maxWait): endpoints accepting again after having refused
+  owed : List (Nat × Nat) := []            -- (ep, at): a connection attempt was refused at `at`, none has succeeded since
   deriving Repr
 
 def St.upd (s : St) (c : Nat) (f : CallSt → CallSt) : St :=
@@ -88,6 +93,23 @@ def discardsOk (s : St) (idx : Nat) (mux : Bool) : Verdict :=
 def evTime : Ev → Nat
   | .issue _ _ t _ => t | .opened t => t | .done _ _ t => t | .wrote _ _ _ _ t => t
   | .srvgot _ _ _ t => t | .connclosed _ t => t | .tick t => t | .clientclosed t => t | .connect _ t => t
+  | .reach _ _ t _ => t
+
+/-- C09, "once the endpoint is reachable again the client resumes … within one maximum retry interval": an endpoint
+    that refused a connection attempt of this client, has been accepting connections again since `tr`, and has seen
+    no attempt since although more than the maximum retry interval (plus one second of slack) has passed — while the
+    client is not closed.  Only evaluated on logs that carry `reach` events (single-endpoint scripts: with several
+    endpoints the aperture may legitimately retire a failed member). -/
+def retrySlack : Nat := 1000000
+
+def retryOverdue (s : St) (idx now : Nat) : Verdict :=
+  if s.clientClosedAt.isSome then .ok else
+  match s.owed.find? (fun o =>
+      match s.upSince.find? (fun u => u.1 == o.1) with
+      | some u => decide (Nat.max u.2.1 o.2 + u.2.2 + retrySlack < now)
+      | none => false) with
+  | some o => .fail "no-reconnect-within-max-interval" [V.ofNat idx, V.ofNat o.1]
+  | none => .ok
 
 /-- monitor step: new state and verdict for this event.  `which` selects the property. -/
 def monStep (which : Nat) (mux : Bool) (s : St) (idx : Nat) (e : Ev) : St × Verdict :=
@@ -136,15 +158,25 @@ def monStep (which : Nat) (mux : Bool) (s : St) (idx : Nat) (e : Ev) : St × Ver
   | .connclosed conn t => ({ s with closed := s.closed ++ [(conn, t)] }, .ok)
   | .tick t => (s, if which = 1 then overdue s idx t else .ok)
   | .clientclosed t => ({ s with clientClosedAt := some t }, .ok)
-  | .connect ep _ =>
+  | .connect ep t =>
     -- C09: "after the client is closed no further reconnection attempts are made"
-    (s, if which = 9 && s.clientClosedAt.isSome then .fail "connect-after-close" [V.ofNat idx, V.ofNat ep] else .ok)
+    let s' : St :=
+      if s.down.any (fun d => d.1 == ep) then
+        { s with owed := (ep, t) :: s.owed.filter (fun o => o.1 != ep) }      -- refused: a retry is owed
+      else { s with owed := s.owed.filter (fun o => o.1 != ep) }              -- accepted
+    (s', if which = 9 && s.clientClosedAt.isSome then .fail "connect-after-close" [V.ofNat idx, V.ofNat ep] else .ok)
+  | .reach ep up t mw =>
+    (if up then { s with down := s.down.filter (fun d => d.1 != ep),
+                         upSince := (ep, t, mw) :: s.upSince.filter (fun u => u.1 != ep) }
+     else { s with down := (ep, t) :: s.down.filter (fun d => d.1 != ep),
+                   upSince := s.upSince.filter (fun u => u.1 != ep) }, .ok)
 
 def monGo (which : Nat) (mux : Bool) (s : St) (idx : Nat) : List Ev → Verdict
   | [] => if which = 12 then discardsOk s idx mux else .ok
   | e :: rest =>
+    let pre : Verdict := if which = 9 then retryOverdue s idx (evTime e) else .ok
     let (s', v) := monStep which mux s idx e
-    v.and (fun _ => monGo which mux s' (idx + 1) rest)
+    pre.and (fun _ => v.and (fun _ => monGo which mux s' (idx + 1) rest))
 
 /-! ### line-protocol face: the operations are the events, the observation is a constant -/
 
@@ -166,6 +198,7 @@ def decEv : List V → Option Ev
   | [.a "tick", t] => do pure (.tick (← t.nat?))
   | [.a "clientclosed", t] => do pure (.clientclosed (← t.nat?))
   | [.a "connect", ep, t] => do pure (.connect (← ep.nat?) (← t.nat?))
+  | [.a "reach", ep, up, t, mw] => do pure (.reach (← ep.nat?) (← up.bool?) (← t.nat?) (← mw.nat?))
   | _ => none
 
 def decCfg : List V → Option Bool
